@@ -759,6 +759,12 @@ def _calls_in(node, attr):
     return [c for c in ast.walk(node) if isinstance(c, ast.Call) and isinstance(c.func, ast.Attribute) and c.func.attr == attr]
 
 
+def stmts_mention_x_after_none(path):
+    """the branch taken for `self.x is None` is the last test of the path (the chain ends there)"""
+    tests = [norm(t[1]) for t in path if isinstance(t, tuple)]
+    return bool(tests) and tests[-1] not in ('self.x is None', 'self.x == None')
+
+
 def rule_sweep_init(ctx):
     r = RuleResult('R-sweep-init', 'every reverse sweep re-initialises the adjoint of every node, unconditionally, '
                                    'before seeding and before the reverse loop; xbar_from_x never reads the previous xbar')
@@ -847,6 +853,21 @@ def rule_sweep_init(ctx):
                           'xbar_from_x assigns self.xbar from `%s`, which is not a fresh allocation (roots %s)' % (txt, sorted(roots or [])), fx.file, st.lineno))
     if len(stores) < 4:
         r.unknown(fx.site(), 'fewer than 4 assignments to self.xbar in xbar_from_x')
+    # every returning path assigns self.xbar (a path that leaves it alone keeps the adjoint of the previous sweep)
+    from .rules_api import _paths
+    for i, path in enumerate(_paths(fx.node.body)):
+        stmts = [s_ for s_ in path if not isinstance(s_, tuple)]
+        if stmts and isinstance(stmts[-1], ast.Raise):
+            continue
+        if any(isinstance(s_, ast.Assign) and any(isinstance(t, ast.Attribute) and t.attr == 'xbar' and norm(t.value) == 'self' for t in s_.targets) for s_ in stmts):
+            r.ok(construct='xbar_from_x:path%d' % i)
+        elif any(isinstance(t, tuple) and norm(t[1]) in ('self.x is None', 'self.x == None') for t in path) and not stmts_mention_x_after_none(path):
+            r.ok(construct='xbar_from_x:path%d:no-output' % i, sample='xbar_from_x: a node without output (self.x is None) has no adjoint')
+        else:
+            conds = [norm(t[1])[:40] for t in path if isinstance(t, tuple)]
+            r.bad(Finding('R-sweep-init', _f(fx), 'xbar_from_x:unassigned:' + '|'.join(conds)[:80],
+                          'xbar_from_x leaves self.xbar untouched on the path through %s: the node keeps the adjoint of the previous sweep' % conds,
+                          fx.file, fx.lineno))
     r.floor = 8
     return r
 
@@ -954,7 +975,14 @@ def rule_sweep_balance(ctx):
                                                                                'order: a slot written twice ends with the earlier value' % (norm(st.target), norm(st.iter)), cp.file, st.lineno))
             else:
                 r.unknown(cp.site(st), 'order of the roll-forward loop over `%s` not determined' % norm(st.iter))
-    if not back:
+    # Function.__setitem__ saves the overwritten contents with the node: the reverse sweep has to put them back, otherwise
+    # the pullbacks of the operations recorded *before* the write read the overwritten buffer
+    fs = m.lookup_method('Function', '__setitem__')
+    saves = fs is not None and any(isinstance(c, ast.Call) and any(k.arg == 'setitem' for k in c.keywords) for c in walk_no_nested(fs.node))
+    if not back and saves:
+        r.bad(Finding('R-sweep-balance', _f(fp), 'no-rollback', 'Function.__setitem__ records the overwritten buffer contents (setitem=...) but Function.pullback never '
+                                                                'restores them: pullbacks of earlier operations read the buffer after the write', fp.file, fp.lineno))
+    elif not back:
         r.ok(construct='no-rollback', sample='Function.pullback contains no roll-back store into node.x[...]')
     for st in back:
         if fwd:
@@ -1127,9 +1155,13 @@ def rule_drv_fresh(ctx):
             r.ok(construct='setitem-unused', sample='Function.pullback does not read .setitem')
             continue
         stores = []
-        for fi in (fpf, cpf):
+        # the store has to hit the node that is being replayed: `<Fout>.<field> = ...` in Function.pushforward, Fout being the
+        # parameter that receives the node (CGraph.pushforward's own `f.args[0].x = x_list[nf]` only feeds the independents)
+        node_par = 'Fout' if 'Fout' in params else None
+        for fi in (fpf,):
             for st in walk_no_nested(fi.node):
-                if isinstance(st, ast.Assign) and any(isinstance(t, ast.Attribute) and t.attr == field for t in st.targets):
+                if isinstance(st, ast.Assign) and any(isinstance(t, ast.Attribute) and t.attr == field
+                                                      and (node_par is None or (isinstance(t.value, ast.Name) and t.value.id == node_par)) for t in st.targets):
                     stores.append((fi, st))
         live = []
         for fi, st in stores:
